@@ -1,16 +1,128 @@
 package main
 
+// Range/Next over maps.  The iteration order is unspecified: every call of Next picks an arbitrary key that is
+// present and not yet visited.  Ghost iterator state (per iterator reference):
+//   ITV|K : visited keys      ITP|K : position at which a key was produced      ITC : number of keys produced
+// Loop invariants refer to it through $visited, $pos and $count.
+
 import (
 	"fmt"
+	"go/types"
 
 	"golang.org/x/tools/go/ssa"
 )
 
-// Range/Next over maps and strings: not yet in the subset.
+func (e *Engine) keyIterV(ks string) string {
+	k := "ITV|" + ks
+	if _, ok := e.hsorts[k]; !ok {
+		e.hsorts[k] = arr(sInt, arr(ks, sBool))
+	}
+	return k
+}
+
+func (e *Engine) keyIterP(ks string) string {
+	k := "ITP|" + ks
+	if _, ok := e.hsorts[k]; !ok {
+		e.hsorts[k] = arr(sInt, arr(ks, sBV64))
+	}
+	return k
+}
+
+func (e *Engine) keyIterC() string {
+	k := "ITC"
+	if _, ok := e.hsorts[k]; !ok {
+		e.hsorts[k] = arr(sInt, sBV64)
+	}
+	return k
+}
+
 func (e *Engine) rangeInstr(fr *Frame, st *State, r *ssa.Range) (*Val, error) {
-	return nil, fmt.Errorf("range over map/string not supported")
+	mt, ok := r.X.Type().Underlying().(*types.Map)
+	if !ok {
+		return nil, fmt.Errorf("range over %s not supported", r.X.Type())
+	}
+	m := e.operand(fr, st, r.X)
+	e.guardCheck(fr, st, m, false, r.Pos())
+	ks := e.reg.sortOf(mt.Key())
+	it := st.newRef()
+	kv, kc := e.keyIterV(ks), e.keyIterC()
+	e.keyIterP(ks)
+	e.heapSet(st, kv, sto(e.heapGet(st, st.heap, kv), it, fmt.Sprintf("((as const %s) false)", arr(ks, sBool))))
+	e.heapSet(st, kc, sto(e.heapGet(st, st.heap, kc), it, bvLit(0, 64)))
+	return &Val{T: it, S: sInt, Box: m, Typ: r.X.Type()}, nil
 }
 
 func (e *Engine) nextInstr(fr *Frame, st *State, n *ssa.Next) (*Val, error) {
-	return nil, fmt.Errorf("next not supported")
+	if n.IsString {
+		return nil, fmt.Errorf("range over string not supported")
+	}
+	itv := e.operand(fr, st, n.Iter)
+	if itv.Box == nil || itv.Typ == nil {
+		return nil, fmt.Errorf("iterator of unknown origin")
+	}
+	mt := itv.Typ.Underlying().(*types.Map)
+	m := itv.Box
+	ks, vs := e.reg.sortOf(mt.Key()), e.reg.sortOf(mt.Elem())
+	kv, kp, kc := e.keyIterV(ks), e.keyIterP(ks), e.keyIterC()
+	hv, hp, hc := e.heapGet(st, st.heap, kv), e.heapGet(st, st.heap, kp), e.heapGet(st, st.heap, kc)
+	visited := sel(hv, itv.T)
+	pos := sel(hp, itv.T)
+	cnt := sel(hc, itv.T)
+	present := sel(e.heapGet(st, st.heap, e.keyMapP(ks, vs)), m.T)
+	values := sel(e.heapGet(st, st.heap, e.keyMapV(ks, vs)), m.T)
+	ok := st.fresh("next_ok", sBool)
+	k0 := st.fresh("next_key", ks)
+	st.assume(e.wfVal(st, k0, ks))
+	// ok: an unvisited present key was picked; !ok: none is left
+	st.assume("(=> " + ok + " (and (not (= " + m.T + " 0)) " + sel(present, k0) + " (not " + sel(visited, k0) + ")))")
+	q := freshName("q_k")
+	st.assume("(=> (not " + ok + ") (forall ((" + q + " " + ks + ")) (=> (and (not (= " + m.T + " 0)) " + sel(present, q) + ") " + sel(visited, q) + ")))")
+	e.heapSet(st, kv, sto(hv, itv.T, ite(ok, sto(visited, k0, "true"), visited)))
+	e.heapSet(st, kp, sto(hp, itv.T, ite(ok, sto(pos, k0, cnt), pos)))
+	e.heapSet(st, kc, sto(hc, itv.T, ite(ok, "(bvadd "+cnt+" #x0000000000000001)", cnt)))
+	st.assume("(bvslt " + cnt + " #x3fffffffffffff00)")
+	val := st.fresh("next_val", vs)
+	st.pc = append(st.pc, eq(val, sel(values, k0)))
+	st.assume(e.wfVal(st, val, vs))
+	tup := n.Type().(*types.Tuple)
+	res := &Val{S: "TUPLE", Typ: n.Type(), Tup: []*Val{
+		{T: ok, S: sBool, Typ: types.Typ[types.Bool]},
+		{T: k0, S: ks, Typ: mt.Key()},
+		{T: val, S: vs, Typ: mt.Elem()},
+	}}
+	_ = tup
+	return res, nil
+}
+
+// iterGhost resolves $visited / $pos / $count for the (first) map iterator of the function.
+func (c *EvalCtx) iterGhost(name string) *Val {
+	if c.fr == nil {
+		return nil
+	}
+	for _, b := range c.fr.fn.Blocks {
+		for _, in := range b.Instrs {
+			r, ok := in.(*ssa.Range)
+			if !ok {
+				continue
+			}
+			itv, ok := c.fr.env[r]
+			if !ok || itv.Typ == nil {
+				continue
+			}
+			mt, ok := itv.Typ.Underlying().(*types.Map)
+			if !ok {
+				continue
+			}
+			ks := c.e.reg.sortOf(mt.Key())
+			switch name {
+			case "$visited":
+				return &Val{T: sel(c.e.heapGet(c.st, c.heap(), c.e.keyIterV(ks)), itv.T), S: arr(ks, sBool)}
+			case "$pos":
+				return &Val{T: sel(c.e.heapGet(c.st, c.heap(), c.e.keyIterP(ks)), itv.T), S: arr(ks, sBV64), Typ: types.NewArray(types.Typ[types.Int], 0)}
+			case "$count":
+				return &Val{T: sel(c.e.heapGet(c.st, c.heap(), c.e.keyIterC()), itv.T), S: sBV64, Typ: types.Typ[types.Int]}
+			}
+		}
+	}
+	return nil
 }
